@@ -9,6 +9,7 @@
 package main
 
 import (
+	"bytes"
 	"encoding/json"
 	"fmt"
 	"math/rand"
@@ -329,6 +330,23 @@ func gitReports(c *collector, h []GitCommit) {
 		}
 	}
 	c.add("git-changelog", false, items, nil)
+	// the printed summary of `coca git -m`: per keyword at most ten "file, count" lines; as a collection of
+	// (keyword, line) pairs (the order of the keyword sections follows a map and is not promised)
+	var buf bytes.Buffer
+	cocagit.ShowChangeLogSummary(msgs, &buf)
+	items = nil
+	section := ""
+	for _, ln := range strings.Split(buf.String(), "\n") {
+		t := strings.TrimSpace(ln)
+		switch {
+		case t == "" || strings.HasPrefix(t, "---") || strings.HasPrefix(t, "==="):
+		case strings.HasSuffix(t, " :"):
+			section = strings.TrimSuffix(t, " :")
+		default:
+			items = append(items, section+"|"+t)
+		}
+	}
+	c.add("git-changelog-printed", false, items, nil)
 }
 
 func one(raw json.RawMessage) interface{} {
@@ -530,6 +548,24 @@ func genGit(r *rand.Rand, id string, n int) Case {
 	return c
 }
 
+// more files under one keyword than the printed summary shows, all changed equally often: the cut falls inside a tie
+func genGitManyChanges(r *rand.Rand, id string, n int) Case {
+	c := Case{Case: id, Kind: "git", N: n, Files: []javagen.File{}}
+	nf := 12 + r.Intn(6)
+	for i := 0; i < 3; i++ {
+		h := GitCommit{Author: gAuthors[i%len(gAuthors)], Date: fmt.Sprintf("2020-02-%02d", 1+i), Subject: []string{"feat: a", "fix(x): b", "feat(api): d"}[i], Ops: []GitOp{}}
+		for k := 0; k < nf; k++ {
+			op := "modify"
+			if i == 0 {
+				op = "add"
+			}
+			h.Ops = append(h.Ops, GitOp{Op: op, Path: fmt.Sprintf("src/m%02d.txt", k), Add: 1 + r.Intn(3), Del: 0})
+		}
+		c.History = append(c.History, h)
+	}
+	return c
+}
+
 func callStmt(recvKind, recv, callee string, args ...javagen.Expr) javagen.Stmt {
 	if args == nil {
 		args = []javagen.Expr{}
@@ -606,6 +642,10 @@ func gen(seed int64, n int, tier string) []interface{} {
 	var out []interface{}
 	for k := 0; k < n; k++ {
 		if k%3 == 2 {
+			if k%12 == 5 {
+				out = append(out, genGitManyChanges(r, fmt.Sprintf("gitmany-%d-%d", seed, k), runs))
+				continue
+			}
 			out = append(out, genGit(r, fmt.Sprintf("git-%d-%d", seed, k), runs))
 			continue
 		}
